@@ -44,6 +44,95 @@ def all_configs():
 
 
 # --------------------------------------------------------------------------------------------
+# the prefit scorer: predict / decision_function / predict_proba give DIFFERENT exactly representable
+# images of the first feature column s, so a rule fitted on the scores of one method and applied at
+# predict time to the scores of another one is visible in _pmf_predict on the training rows.
+#   predict            -> s
+#   decision_function  -> 2*s - 3                      (increasing)
+#   predict_proba[:,1] -> "dec": (16 - s)/16 (DEcreasing: the order of the rows is reversed)
+#                         "inc": s/16        "fold": |s - 1|/16 (non-monotone: merges levels)
+# `has` says which of the three methods the estimator object HAS ("p", "pd", "pf", "pdf"), which decides
+# what predict_method="auto" resolves to (_get_soft_predictions: predict_proba, else decision_function,
+# else predict).
+# --------------------------------------------------------------------------------------------
+METHODS = ["predict", "decision_function", "predict_proba", "auto"]
+HAS = {"predict": ["p", "pd", "pf", "pdf"], "decision_function": ["pd", "pdf"], "predict_proba": ["pf", "pdf"],
+       "auto": ["p", "pd", "pf", "pdf"]}
+PROBA = ["dec", "inc", "dec", "inc", "fold"]
+_SCORERS = {}
+
+
+def effective_method(case):
+    m = case.get("method", "predict")
+    if m != "auto":
+        return m
+    has = case.get("has", "pdf")
+    return "predict_proba" if "f" in has else ("decision_function" if "d" in has else "predict")
+
+
+def method_image(method, proba, s):
+    """exact image (Fraction) of the feature value s under the estimator's method"""
+    if method == "predict":
+        return s
+    if method == "decision_function":
+        return 2 * s - 3
+    if proba == "dec":
+        return (16 - s) / 16
+    if proba == "inc":
+        return s / 16
+    return abs(s - 1) / 16
+
+
+def scorer(has, proba):
+    """the estimator class with exactly the methods in `has` (built lazily: sklearn import)"""
+    key = (has, proba)
+    if key in _SCORERS:
+        return _SCORERS[key]()
+    import numpy as np
+    from sklearn.base import BaseEstimator, ClassifierMixin
+
+    def col(X):
+        return np.asarray(X)[:, 0].astype(float)
+
+    ns = {"__init__": lambda self: None, "fit": lambda self, X, y=None, **kw: self,
+          "__sklearn_is_fitted__": lambda self: True, "predict": lambda self, X: col(X)}
+    if "d" in has:
+        ns["decision_function"] = lambda self, X: 2 * col(X) - 3
+    if "f" in has:
+        def predict_proba(self, X, proba=proba):
+            v = col(X)
+            p1 = (16 - v) / 16 if proba == "dec" else (v / 16 if proba == "inc" else np.abs(v - 1) / 16)
+            return np.stack([1 - p1, p1], axis=1)
+        ns["predict_proba"] = predict_proba
+    cls = type(f"Scorer_{has}_{proba}", (BaseEstimator, ClassifierMixin), ns)
+    _SCORERS[key] = cls
+    return cls()
+
+
+def scoring(case):
+    """(per-row exact scores of the method the configuration names, common denominator D):
+    the model gets the integers v*D; a model threshold t (in those units) is the float t/D"""
+    sc, off = Fraction(*case["scale"]), Fraction(*case["offset"])
+    m, pr = effective_method(case), case.get("proba", "dec")
+    vals = [method_image(m, pr, Fraction(r[2]) * sc + off) for r in case["rows"]]
+    d = 1
+    for v in vals:
+        d = d * v.denominator // math.gcd(d, v.denominator)
+    return vals, d
+
+
+def assign_methods(cases_, seed):
+    """about a third of the cases use a predict_method other than "predict" (both paths, every stream)"""
+    for i, c in enumerate(cases_):
+        r = Rng(seed, "C04C05", "method", i)
+        m = r.choice(METHODS[1:]) if r.chance(3, 8) else "predict"
+        c["method"] = m
+        c["has"] = r.choice(HAS[m])
+        c["proba"] = r.choice(PROBA)
+    return cases_
+
+
+# --------------------------------------------------------------------------------------------
 # case generation
 # --------------------------------------------------------------------------------------------
 def _canon_table(rows):
@@ -132,7 +221,7 @@ def cases(pid, tier, seed):
         else:
             gsz = r.choice(GRIDS + [6, 8, 9, 16, 20, 50, r.randint(1, 50)])
         out.append(_mk(rows, (c, o, r.chance(1, 2), gsz), r.choice(SCALES), r.choice(OFFSETS)))
-    return out + structured(tier, seed)
+    return assign_methods(out + structured(tier, seed), seed)
 
 
 # --------------------------------------------------------------------------------------------
@@ -240,14 +329,18 @@ def _opd(o):
 def impl(case):
     import numpy as np, pandas as pd
     from fairlearn.postprocessing import ThresholdOptimizer
-    from harness.learners import PassThrough
     rows = case["rows"]
     g = np.array([r[0] for r in rows])
     y = np.array([r[1] for r in rows])
     s = np.array([_score(case, r[2]) for r in rows], dtype=float)
     X = pd.DataFrame({"s": s, "c": np.arange(len(rows)) % 2})
-    to = ThresholdOptimizer(estimator=PassThrough(), constraints=case["constraint"], objective=case["objective"],
-                            grid_size=case["grid"], flip=case["flip"], prefit=True, predict_method="predict")
+    if "method" in case:
+        est, method = scorer(case["has"], case["proba"]), case["method"]
+    else:                                   # corpus files written before the scorer existed
+        from harness.learners import PassThrough
+        est, method = PassThrough(), "predict"
+    to = ThresholdOptimizer(estimator=est, constraints=case["constraint"], objective=case["objective"],
+                            grid_size=case["grid"], flip=case["flip"], prefit=True, predict_method=method)
     to.fit(X, y, sensitive_features=g)
     d = to.interpolated_thresholder_.interpolation_dict
     rules = {}
@@ -265,7 +358,8 @@ def impl(case):
 # --------------------------------------------------------------------------------------------
 def _groups(case):
     gs = sorted({r[0] for r in case["rows"]})
-    return gs, [[(r[2], r[1]) for r in case["rows"] if r[0] == g] for g in gs]
+    vals, d = scoring(case)
+    return gs, [[(int(v * d), r[1]) for v, r in zip(vals, case["rows"]) if r[0] == g] for g in gs]
 
 
 def term(case, out):
@@ -362,7 +456,7 @@ def constrained_metrics(case):
 def _thr_float(case, t):
     if isinstance(t, float):
         return t
-    return float(t * Fraction(*case["scale"]) + Fraction(*case["offset"]))
+    return float(t / scoring(case)[1])
 
 
 def _canon_rule(p0, op0, p1, op1):
@@ -475,7 +569,8 @@ def compare_c05(pid, case, out, model):
 
 def shape_tags(case):
     """input-shape histogram: anti-correlated groups, single-score / heavily tied groups, unbalanced sizes"""
-    rows = case["rows"]
+    vals, _ = scoring(case)                  # the scores the optimiser sees (method image of the feature)
+    rows = [[r[0], r[1], v] for r, v in zip(case["rows"], vals)]
     eo = case["constraint"] == "equalized_odds"
     anti = strict = single = heavy = one_many = False
     sizes = []
@@ -517,6 +612,15 @@ def tags(case, out, model):
          f"grid:{case['grid'] if case['grid'] <= 10 else ('11-100' if case['grid'] <= 100 else '101-1000')}",
          f"groups:{len({r[0] for r in case['rows']})}"]
     t += shape_tags(case)
+    m, eff = case.get("method", "predict"), effective_method(case)
+    t.append(f"predict_method:{m}")
+    if m != "predict":
+        t.append("predict_method:other-than-predict")
+        t.append("predict_method:other-than-predict," + ("equalized_odds" if case["constraint"] == "equalized_odds" else "simple"))
+    if m == "auto":
+        t.append(f"predict_method:auto->{eff}(estimator has {case.get('has', 'pdf')})")
+    if eff == "predict_proba":
+        t.append(f"predict_proba-image:{case.get('proba', 'dec')}")
     if model is not None:
         t.append("tie" if model["tie"] else "tie-free")
         t.append("interior-x" if 0 < model["i_best"] < case["grid"] else "endpoint-x")
@@ -554,3 +658,5 @@ def shrink(case):
             yield dict(case, grid=g)
     if case["scale"] != [1, 1] or case["offset"] != [0, 1]:
         yield dict(case, scale=[1, 1], offset=[0, 1])
+    if case.get("method", "predict") != "predict":
+        yield dict(case, method="predict", has="p")
